@@ -13,12 +13,15 @@ use subtle::{
 impl BoxedUint {
     /// Returns the Ordering between `self` and `rhs` in variable time.
     pub fn cmp_vartime(&self, rhs: &Self) -> Ordering {
-        debug_assert_eq!(self.limbs.len(), rhs.limbs.len());
-        let mut i = self.limbs.len() - 1;
+        // Operands of different precision are compared as integers: the shorter one is zero-padded,
+        // as in `ct_eq`, `ct_lt` and `ct_gt`.
+        let mut i = max(self.limbs.len(), rhs.limbs.len()) - 1;
         loop {
             // TODO: investigate if directly comparing limbs is faster than performing a
             // subtraction between limbs
-            let (val, borrow) = self.limbs[i].sbb(rhs.limbs[i], Limb::ZERO);
+            let a = self.limbs.get(i).unwrap_or(&Limb::ZERO);
+            let b = rhs.limbs.get(i).unwrap_or(&Limb::ZERO);
+            let (val, borrow) = a.sbb(*b, Limb::ZERO);
             if val.0 != 0 {
                 return if borrow.0 != 0 {
                     Ordering::Less
